@@ -50,6 +50,8 @@ type frame struct {
 }
 
 type Unit struct {
+	inComm int // >0 while the comm statement of a select clause is executed
+	defs map[string]Term // named intermediate values (nameBig): name -> the term it stands for
 	eng     *Engine
 	name    string
 	fn      *types.Func
